@@ -19,6 +19,9 @@ RuleSets ==
       <<Rule("always", "MISSING")>>, <<Rule("always", "IT")>>,
       <<Rule("always", "K0"), Rule("always", "K0")>>,        \* repeated name: first rule wins
       <<Rule("never", "K0"), Rule("always", "K0")>>,
+      \* a shadowed rule's (stateful) trigger is still evaluated, once per execution
+      <<Rule("every2", "K0"), Rule("scripted", "K0")>>,
+      <<Rule("always", "U"), Rule("scripted", "U"), Rule("scripted", "K0")>>,
       <<Rule("scripted", "U"), Rule("every2", "K0")>>,
       <<Rule("every2", "IT"), Rule("always", "U"), Rule("scripted", "MISSING")>> }
 
